@@ -49,6 +49,50 @@ CLAIMED = {
              '(modulo the *\\/ escape); never panic. FieldAttr::merge concatenates docs and drops them for flattened fields, for all '
              'attribute records. Doc-bearing declarations in shared files are C05 inputs; layout of DOCS before `export` is C04.',
         ref='DESIGN.md 4 (C15)'),
+    'C03': dict(
+        text='Runtime half: for a type T visiting three dependencies (plus a tail with repeats / itself) whose names (distinct letters), '
+             'placements (menu incl. same file, ./ and .. spellings, sub-directories, plus 2-3 symbolic path bytes for one of them), '
+             'exportability and export directory are symbolic, with import-esm off and on, the text produced by the real '
+             'export_to_string/generate_imports/TS::dependencies/Dependency::from_ty/import_path (MIR) is parsed back and on every path: '
+             'exactly the visited exportable dependencies living in another file are imported, each once, from a specifier that resolves to '
+             'their file; statements and names strictly sorted; no self-import; Err exactly when a placement climbs above the root. '
+             'Which types the derive-generated visit_dependencies reports (macro half) is not covered.',
+        ref='DESIGN.md 4 (C03)'),
+    'C04': dict(
+        text='Lexical well-formedness kernels: for every name up to the length bound over an alphabet with quotes, backslash, line breaks, '
+             'digits, $ and a non-ASCII sample, raw_name_to_ts_field returns the name itself only if it is an IdentifierName, else a closed '
+             'double-quoted literal that decodes to the name (z3 decides a decode-match formula on every path); to_ts_ident strips exactly '
+             'the r# prefix; export_to_string is NOTE ++ import lines ++ blank line ++ DOCS? ++ "export " ++ decl ++ newline with DOCS/decl '
+             'uninterpreted. Names with a Rust-alphanumeric that is not an ECMAScript identifier char are a listed known finding. A full '
+             'TypeScript grammar and the derive-built literals (variant/tag/content) are outside.',
+        ref='DESIGN.md 4 (C04)'),
+    'C06': dict(
+        text='For every history of 2 (quick: reduced 3) calls over {export, export_all, export_all_to} x {A, B (share a file), C (depends on '
+             'A), D (not exportable)}, every listed spelling of the export directory (env and argument) and initial directory content '
+             '(empty / stale files at the targets), the real entry points (MIR, down to merge) over the file-system + registry models leave '
+             'exactly the independently computed canonical contents for the set of types exported: independent of order, entry point and '
+             'spelling; stale bytes never survive; unrelated files untouched; non-exportable roots give Err.',
+        ref='DESIGN.md 4 (C06)'),
+    'C11': dict(
+        text='For every dependency graph on 3 (thorough: 4) types (all adjacency matrices incl. self-loops and cycles), symbolic '
+             'exportability and placements (nested, ../, shared file), exported with export_all / export_all_to into directories with '
+             'dot segments and pre-existing unrelated files: the files created are exactly those of the exportable types reachable from '
+             'the root through exportable types, each created once, nothing else written, contents canonical (imports relative to the '
+             'directory actually exported into), and default_output_path() names the root\'s file. The generated output_path() is outside.',
+        ref='DESIGN.md 4 (C11)'),
+    'C13': dict(
+        text='Output boundary only: the text of export_to_string is byte-identical for every permutation and duplication of the dependency '
+             'visit order (the channel through which the derive\'s hash-set order and test scheduling reach the runtime), for all the '
+             'C03 cells; a file shared by 2-3 types equals the canonical file for every export order; hash-collection iteration in the '
+             'executed code yields a symbolic order. Independent compilations as such are not encodable (outside).',
+        ref='DESIGN.md 4 (C13)'),
+    'C17': dict(
+        text='For histories of 2 (thorough: 3) export calls with one obstacle of the four stated kinds (target is a directory, parent is a '
+             'regular file, more `..` than depth with depth+1/+2/+4 segments, non-exportable root) injected before any step, over every '
+             'entry point: the obstructed call returns Err on every path (no panic path is feasible), files outside the recursive '
+             'export\'s own targets are byte-identical, the failed name is not in the registry, and after removing the obstacle the retry '
+             'yields exactly the directory of the fault-free history.',
+        ref='DESIGN.md 4 (C17)'),
 }
 
 NOT_APPLICABLE = {
